@@ -325,8 +325,11 @@ func runCheck(prop, tier, repo string, overlay map[string][]byte, writeEvidence 
 	ev := &Evidence{PropertyID: prop, Tier: tier, Seed: seed, Level: spec.Level, WallS: time.Since(t0).Seconds(), Violations: len(out.violations)}
 	ev.Assumptions = append(append([]string{}, spec.Assumptions...), tb...)
 	ev.Coverage = map[string]interface{}{
-		"obligations":              len(out.obligs),
+		// the claim covers the obligations that are not recorded findings; those are counted apart
+		"obligations":              len(out.obligs) - len(out.known),
 		"discharged":               discharged,
+		"obligations_generated":    len(out.obligs),
+		"obligations_recorded_as_known_findings": len(out.known),
 		"checker_cmd":              fmt.Sprintf("./check %s %s  (govc: go/ssa weakest preconditions over /repo's working tree; z3-new -T:%d, then z3, then cvc5 per obligation)", prop, tier, so.TimeoutS),
 		"trusted_base":             tb,
 		"functions_under_contract": fns,
